@@ -92,8 +92,11 @@ def evaluate_pair(spec):
     u = Fraction(1, 1 << k) if k else Fraction(1, 10 ** 9)
     t = Fraction(T0)
     steps = spec["tsteps"]
+    # "tight": consecutive packets 250 ns .. 1 us apart (distinct capture times - a double resolves 238 ns at present-day epochs - that
+    # fall into the same microsecond): no ground truth is used here, only that both containers, holding the same times, export alike
+    tight = bool(spec.get("tight")) and not k
     for i, p in enumerate(pkts):
-        t += u * max(1 + steps[i % len(steps)], -(-Fraction(2, 1_000_000) // u))
+        t += u * max(1 + steps[i % len(steps)], 250 if tight else -(-Fraction(2, 1_000_000) // u))
         p.ts = t
     b.pkts = pkts
     wd = engine.workdir()
@@ -117,7 +120,7 @@ def evaluate_pair(spec):
             detail = f"container {conts[ci]} vs nanosecond pcap: packet {d}: {outs[ci][d][0] if d is not None else '-'} vs {outs[0][d][0] if d is not None else '-'}"
             break
     half = any((Fraction(p.ts) * 1_000_000) % 1 >= Fraction(1, 2) for p in pkts)
-    return {"sig": sig, "detail": detail, "nontrivial": bool(outs[0]) and half, "labels": ["pair", "bin:%d" % k, "half-us" if half else "below-half"], "evals": len(conts)}
+    return {"sig": sig, "detail": detail, "nontrivial": bool(outs[0]) and half, "labels": ["pair", "bin:%d" % k, "half-us" if half else "below-half", "tight-spacing" if tight else "spacing>=2us"], "evals": len(conts)}
 
 
 @st.composite
@@ -130,6 +133,9 @@ def pair_spec(draw):
     sc["offset_first"] = draw(st.booleans())
     sc["extra"] = [[draw(st.integers(0, 30)), draw(st.sampled_from([4, 5, 0x00000BAD])), 4 * draw(st.integers(0, 10))] for _ in range(draw(st.integers(0, 2)))]
     sc["tsteps"] = draw(st.lists(st.one_of(st.integers(0, 999), st.integers(0, 5_000_000)), min_size=1, max_size=8))
+    sc["tight"] = draw(st.booleans())
+    if sc["tight"]:
+        sc["tsteps"] = draw(st.lists(st.integers(0, 700), min_size=1, max_size=8))
     return sc
 
 
